@@ -211,4 +211,17 @@ def jsonlForwardT {α ε : Type} (parse : List Nat → Except ε α) (ignore : B
 def jsonlReverse {α ε : Type} (parse : List Nat → Except ε α) (ignore : Bool) (bs : Nat) (c : List Nat) :=
   consume parse ignore (reverseIterLines c bs)
 
+
+/-- SPEC: the object a line contributes when errors are ignored: none for a blank line
+    (`line.lstrip()` empty) and for an undecodable one -/
+def objOf {α ε : Type} (parse : List Nat → Except ε α) (l : List Nat) : Option α :=
+  if lstrip l = [] then none
+  else match parse (lstrip l) with
+    | .ok v => some v
+    | .error _ => none
+
+/-- assumption on `json.loads`: a trailing line break (`\n` or `\r\n`) does not change the result -/
+def IgnoresBreak {α ε : Type} (parse : List Nat → Except ε α) : Prop :=
+  ∀ x, parse (x ++ [10]) = parse x ∧ parse (x ++ [13, 10]) = parse x
+
 end C19
